@@ -53,7 +53,7 @@ macro_rules! fixed_impl {
             /// Returns the absolute value of the number.
             #[inline(always)]
             pub const fn abs(self) -> Self {
-                Self(self.0.abs())
+                Self(self.0.wrapping_abs())
             }
 
             /// Returns the largest integer less than or equal to the number.
@@ -168,7 +168,7 @@ macro_rules! fixed_mul_div {
                     0x7FFFFFFF
                 };
                 Self(if sign < 0 {
-                    -(result as i32)
+                    (result as i32).wrapping_neg()
                 } else {
                     result as i32
                 })
@@ -196,22 +196,25 @@ macro_rules! fixed_mul_div {
             #[inline(always)]
             fn div(self, other: Self) -> Self::Output {
                 let mut sign = 1;
-                let mut a = self.0;
-                let mut b = other.0;
-                if a < 0 {
-                    a = -a;
+                if self.0 < 0 {
                     sign = -1;
                 }
-                if b < 0 {
-                    b = -b;
+                if other.0 < 0 {
                     sign = -sign;
                 }
+                // magnitudes as unsigned, so that the minimum value is handled
+                let a = self.0.unsigned_abs();
+                let b = other.0.unsigned_abs();
                 let q = if b == 0 {
                     0x7FFFFFFF
                 } else {
                     ((((a as u64) << 16) + ((b as u64) >> 1)) / (b as u64)) as u32
                 };
-                Self(if sign < 0 { -(q as i32) } else { q as i32 })
+                Self(if sign < 0 {
+                    (q as i32).wrapping_neg()
+                } else {
+                    q as i32
+                })
             }
         }
 
@@ -226,7 +229,7 @@ macro_rules! fixed_mul_div {
             type Output = Self;
             #[inline(always)]
             fn neg(self) -> Self {
-                Self(-self.0)
+                Self(self.0.wrapping_neg())
             }
         }
     };
